@@ -4,6 +4,8 @@ import Ampy.Driver.Parse
 import Ampy.Spec.C17
 import Ampy.Spec.C18
 import Ampy.Driver.Scene
+import Ampy.Driver.Run
+import Ampy.Driver.Screen
 /-
 Model driver: one request per input line, one canonical answer per output line.
 Run as a compiled executable (`lake build ampydrv`) or with `lake env lean --run Main.lean`.
@@ -21,6 +23,8 @@ def handle (line : String) : String :=
     | some os => "SIG " ++ showBools (significantCloud os)
     | none => "bad-request"
   | "MET" :: rest => handleMet rest
+  | "RUN" :: rest => handleRun rest
+  | "SCREEN" :: rest => handleScreen rest
   | "SPEC17" :: rest =>
     -- SPEC17 o1 o2 ... | TFTF
     match splitTok "|" rest with
